@@ -1,0 +1,23 @@
+//go:build verif
+
+// Verification hook (build tag verif), add-only: read-only view of the cache of blocks the node could not import yet
+// (futureBlocksCache: blocks ahead of the local clock and their cached descendants, retried by the housekeeping ticker).
+
+package node
+
+import (
+	"github.com/vechain/thor/v2/block"
+	"github.com/vechain/thor/v2/cache"
+	"github.com/vechain/thor/v2/thor"
+)
+
+// VerifFutureBlocks returns the ids of the blocks in the future-blocks cache, in the order the housekeeping retry would
+// visit them BEFORE sorting (the cache's own iteration order).
+func (n *Node) VerifFutureBlocks() []thor.Bytes32 {
+	var ids []thor.Bytes32
+	n.futureBlocksCache.ForEach(func(ent *cache.Entry) bool {
+		ids = append(ids, ent.Value.(*block.Block).Header().ID())
+		return true
+	})
+	return ids
+}
